@@ -1111,7 +1111,6 @@ func c18RunCase(out *vh.Out, op string) {
 		// mailbox, are two recipients with their own outcome - each needs a group of its own;
 		// among several groups showing the same address the one carrying this recipient's
 		// status is taken, so the order of the groups does not matter)
-		used := make([]bool, len(p.Rcpts))
 		statusOf := func(n *verr.Node) string {
 			cls := 5
 			if !c18Perm(n) {
@@ -1134,10 +1133,6 @@ func c18RunCase(out *vh.Out, op string) {
 		// not be credited with the group of another member of the same alias
 		order := append([]int{}, failed...)
 		sort.SliceStable(order, func(i, j int) bool { return c.levels[order[i]] < 2 && c.levels[order[j]] >= 2 })
-		// (twice rewritten recipients in two rounds: first those with a group showing the sender's
-		// address AND carrying their own status, then the rest - the intermediate address of a sibling
-		// can be a mere respelling of the address the sender used, e.g. its U-label form, and must
-		// not be taken by another twice rewritten recipient with a different outcome)
 		diagMatches := func(g vdsn.Group, n *verr.Node) bool {
 			dg := g["Diagnostic-Code"]
 			if len(dg) != 1 {
@@ -1168,44 +1163,122 @@ func c18RunCase(out *vh.Out, op string) {
 			}
 			return true
 		}
-		credit := func(r int, exactWithStatusOnly bool) bool {
+		// Which group is whose: several recipients can be shown under the SAME address (spellings of
+		// one mailbox that differ in the case / the A- or U-label form of the domain only, members of
+		// one alias, the intermediate address of a twice rewritten sibling being a respelling of the
+		// sender's address), so the groups are credited to the recipients as a whole - the assignment
+		// that explains the report best: a group can be credited to a recipient when it shows exactly
+		// the sender's bytes (the domain in the form the report type requires; weight 2) or - once
+		// rewritten recipients only - the same mailbox with another spelling of the domain (0); a
+		// group carrying the recipient's own status counts more (+1), then its own diagnostic; the
+		// recipients rewritten once at most are served before the twice rewritten ones (KF-C18-1:
+		// shown under the intermediate address), which are credited with an exact match only.  When
+		// every recipient has a group of its own with its own status and diagnostic that assignment
+		// is (one of) the best, so no violation is reported; when the groups of two recipients shown
+		// under different bytes are swapped, or a group is missing or wrong, every assignment shows it
+		edge := func(r int, g vdsn.Group) int { // 0 = cannot be credited
+			if len(g["Final-Recipient"]) == 0 {
+				return 0
+			}
 			want := c.name(c.root[r])
-			// the best candidate: a group showing exactly the sender's bytes (the domain in the form
-			// the report type requires) before one showing the same mailbox with another spelling of
-			// the domain; among equals the one with this recipient's status.  A twice rewritten
-			// recipient (KF-C18-1) is credited with an exact match only: the intermediate address of a
-			// sibling may be a mere respelling of the address the sender used
-			wantShown := vdsn.ShownAs(c.utf8, want)
-			found, best := -1, -1
+			_, a := vdsn.SplitTyped(g["Final-Recipient"][0])
+			score := 0
+			switch {
+			case a == vdsn.ShownAs(c.utf8, want) || a == want:
+				score = 2
+			case vdsn.SameMailbox(a, want) && c.levels[r] < 2:
+			default:
+				return 0
+			}
+			if len(g["Status"]) > 0 && strings.TrimSpace(g["Status"][0]) == statusOf(exp.lastE[k][r]) {
+				score++
+			}
+			score *= 2
+			if diagMatches(g, exp.lastE[k][r]) {
+				score++
+			}
+			score++
+			if c.levels[r] < 2 {
+				score *= 100
+			}
+			return score
+		}
+		nG := len(p.Rcpts)
+		wgt := make([][]int, len(order))
+		for i, r := range order {
+			wgt[i] = make([]int, nG)
 			for gi, g := range p.Rcpts {
-				if used[gi] || len(g["Final-Recipient"]) == 0 {
-					continue
+				wgt[i][gi] = edge(r, g)
+			}
+		}
+		assigned := make([]int, len(order))
+		if nG <= 16 {
+			memo := map[[2]int]int{}
+			var bestFrom func(i, mask int) int
+			bestFrom = func(i, mask int) int {
+				if i == len(order) {
+					return 0
 				}
-				_, a := vdsn.SplitTyped(g["Final-Recipient"][0])
-				score := 0
-				switch {
-				case a == wantShown || a == want:
-					score = 2
-				case vdsn.SameMailbox(a, want) && c.levels[r] < 2:
-				default:
-					continue
+				key := [2]int{i, mask}
+				if v, ok := memo[key]; ok {
+					return v
 				}
-				if len(g["Status"]) > 0 && strings.TrimSpace(g["Status"][0]) == statusOf(exp.lastE[k][r]) {
-					score++
+				b := bestFrom(i+1, mask)
+				for gi := 0; gi < nG; gi++ {
+					if wgt[i][gi] > 0 && mask&(1<<gi) == 0 {
+						if v := wgt[i][gi] + bestFrom(i+1, mask|1<<gi); v > b {
+							b = v
+						}
+					}
 				}
-				// (two groups showing the same address with the same status: the one carrying this
-				// recipient's diagnostic is its own)
-				score *= 2
-				if diagMatches(g, exp.lastE[k][r]) {
-					score++
-				}
-				if score > best {
-					found, best = gi, score
+				memo[key] = b
+				return b
+			}
+			mask := 0
+			for i := range order {
+				assigned[i] = -1
+				total := bestFrom(i, mask)
+				for gi := 0; gi < nG; gi++ {
+					if wgt[i][gi] > 0 && mask&(1<<gi) == 0 && wgt[i][gi]+bestFrom(i+1, mask|1<<gi) == total {
+						assigned[i] = gi
+						mask |= 1 << gi
+						break
+					}
 				}
 			}
-			if exactWithStatusOnly && best < 6 {
-				return false
+			if len(memo) > 64 {
+				out.Stat("q.report.crediting.ambiguous-large")
 			}
+		} else {
+			// (not generated: more groups than a bit mask is worth - one after the other)
+			usedG := make([]bool, nG)
+			for i := range order {
+				assigned[i] = -1
+				b := 0
+				for gi := 0; gi < nG; gi++ {
+					if !usedG[gi] && wgt[i][gi] > b {
+						assigned[i], b = gi, wgt[i][gi]
+					}
+				}
+				if assigned[i] >= 0 {
+					usedG[assigned[i]] = true
+				}
+			}
+		}
+		for i := range order {
+			nOpt := 0
+			for gi := 0; gi < nG; gi++ {
+				if wgt[i][gi] > 0 {
+					nOpt++
+				}
+			}
+			if nOpt > 1 {
+				out.Stat("q.report.crediting.recipient-with-several-candidate-groups")
+			}
+		}
+		credit := func(i, r int) bool {
+			want := c.name(c.root[r])
+			found := assigned[i]
 			if found < 0 {
 				var got []string
 				for _, g := range p.Rcpts {
@@ -1218,7 +1291,6 @@ func c18RunCase(out *vh.Out, op string) {
 				viol(sig, fmt.Sprintf("recipient %q (sender used %q, %d rewriting levels) not among %q", c.name(r), want, c.levels[r], got))
 				return true
 			}
-			used[found] = true
 			g := p.Rcpts[found]
 			n := exp.lastE[k][r]
 			if !wf {
@@ -1273,18 +1345,8 @@ func c18RunCase(out *vh.Out, op string) {
 			}
 			return true
 		}
-		var secondRound []int
-		for _, r := range order {
-			if c.levels[r] >= 2 {
-				if !credit(r, true) {
-					secondRound = append(secondRound, r)
-				}
-			} else {
-				credit(r, false)
-			}
-		}
-		for _, r := range secondRound {
-			credit(r, false)
+		for i, r := range order {
+			credit(i, r)
 		}
 		// the local part is opaque: every address the report shows in Final-Recipient is one of the
 		// strings the case knows, local part byte for byte (the domain may be in the A-/U-label form
